@@ -2,6 +2,8 @@ import EkwVerif.Drive.Util
 import EkwVerif.Model.Ctrl
 import EkwVerif.Model.CtrlN
 import EkwVerif.Lemmas.SchedTermA
+import EkwVerif.Lemmas.CtrlWFCheck
+import EkwVerif.Lemmas.CtrlPresched
 open Lean EkwVerif.Drive EkwVerif.Ctrl
 
 namespace EkwVerif.DriveCtrl
@@ -164,6 +166,23 @@ def pCluster (j : Json) : Cluster :=
   { workers := (getArr j "workers").map (fun w => match asArr w with
       | [h, i, g] => (⟨asNat h, asNat i⟩, (g.getBool?).toOption.getD false)
       | _ => (⟨0, 0⟩, false)) }
+
+/-- the hypotheses of the theorems, evaluated on the replayed input (`wfCheck_sound`, `wfcCheck_sound`, `feasCheck_sound`):
+`WF job cluster`, `WFC job cm` for the component map the REAL `precompute`/`initialize` produced, `Feasible job cluster` -/
+def hypChecks (j : Json) (job : Job) (cl : Cluster) : List (String × Json) :=
+  let comp := (getArr j "comp").map asNat
+  let cm : Comps := { compOf := fun t => comp.getD t 0, n := getNat j "ncomp" }
+  -- the component map the theorems `c01_delivers_checked` / `c03_completes_checked` are about (`preComps`: C16's model of
+  -- `precompute` on the JobInstance the job stands for) against the REAL one, as partitions of the tasks (the numbering of
+  -- components of equal size follows Python set iteration order); jobs of at most 20 tasks
+  let compEq : Bool :=
+    if job.tasks.length > 20 then true else
+    let pc := preComps job (fun _ _ => .kw "k")
+    let tbl := job.taskIds.map pc.compOf
+    pc.n == cm.n && job.taskIds.all (fun t => job.taskIds.all (fun u =>
+      (tbl.getD t 0 == tbl.getD u 0) == (cm.compOf t == cm.compOf u)))
+  [("wf", toJson (wfCheck job cl)), ("wfc", toJson (wfcCheck job cm && comp.length == job.tasks.length)),
+   ("feasible", toJson (feasCheck job cl)), ("compEq", toJson compEq)]
 
 def pAsg (j : Json) : Asg :=
   { worker := pW ((j.getObjVal? "w").toOption.getD Json.null), task := getNat j "t",
